@@ -301,7 +301,9 @@ class World(object):
         codes, prefix, local = qname_errors(ns, qname, False)
         if codes: return Res.err(codes)
         e = self.new(EL, doc, name=qname, ns=ns, local=local, prefix=prefix)
-        # createElementNS: the specification does not promise DTD default attributes (createElement does); Xerces adds none
+        # createElementNS: the specification promises DTD default attributes only for createElement; Xerces adds them (by
+        # qualified name) here as well -> mirrored, tagged unspecified
+        self.add_defaults(e)
         return Res.ok(e, 'createElementNS of an element type with DTD default attributes' if self.default_attrs(doc, qname) else None)
     def createTextNode(self, doc, data): return Res.ok(self.new(TX, doc, value=data))
     def createComment(self, doc, data): return Res.ok(self.new(CM, doc, value=data))
@@ -680,7 +682,7 @@ class World(object):
                 ca = self._clone(a, True, doc, readonly=c.readonly, importing=importing); ca.owner = c
                 ca.specified = a.specified if not importing else True
                 c.attrs.append(ca)
-            if importing and n.local is None: self.add_defaults(c)
+            if importing: self.add_defaults(c)
         if n.t == AT: c.specified = True
         if n.t == ER:
             if importing:
@@ -705,10 +707,7 @@ class World(object):
     def importNode(self, doc, n, deep):
         if n.t in (DOC, DT): return Res.err({NOT_SUPPORTED})
         if n.t in (ENT, NOT): return None
-        unspec = None
-        if any(x.t == EL and x.local is not None and self.default_attrs(doc, x.name) for x in (subtree(n) if deep else [n])):
-            unspec = 'import of a namespace-aware element whose type has DTD default attributes in the target document'
-        return Res.ok(self._clone(n, deep or n.t == AT, doc, importing=True), unspec)
+        return Res.ok(self._clone(n, deep or n.t == AT, doc, importing=True))
 
 
 # =========================================================================================================
